@@ -1,5 +1,6 @@
 (* Conversions between OCaml values and the extracted Coq datatypes. *)
 open Kmodel
+type string = Stdlib.String.t
 
 let rec nat_of_int (i : int) : nat = if i <= 0 then O else S (nat_of_int (i - 1))
 let nat_of_int i =
@@ -53,3 +54,24 @@ let string_of_z = function
   | Z0 -> "0" | Zpos p -> string_of_n (Npos p) | Zneg p -> "-" ^ string_of_n (Npos p)
 
 let split_on c s = if s = "" then [] else String.split_on_char c s
+
+(* Coq [string] / [ascii] (not mapped by ExtrOcamlBasic) <-> OCaml string *)
+let char_of_ascii (a : Kmodel.ascii) : char =
+  match a with
+  | Ascii (b0, b1, b2, b3, b4, b5, b6, b7) ->
+    let v b i = if b then 1 lsl i else 0 in
+    Char.chr (v b0 0 + v b1 1 + v b2 2 + v b3 3 + v b4 4 + v b5 5 + v b6 6 + v b7 7)
+let ascii_of_char (c : char) : Kmodel.ascii =
+  let n = Char.code c in
+  let b i = (n lsr i) land 1 = 1 in
+  Ascii (b 0, b 1, b 2, b 3, b 4, b 5, b 6, b 7)
+let rec string_of_coq_string (s : Kmodel.string) : string =
+  let buf = Buffer.create 16 in
+  let rec go = function
+    | EmptyString -> ()
+    | String (a, r) -> Buffer.add_char buf (char_of_ascii a); go r in
+  go s; Buffer.contents buf
+let coq_string_of_string (s : string) : Kmodel.string =
+  let r = ref EmptyString in
+  for i = String.length s - 1 downto 0 do r := String (ascii_of_char s.[i], !r) done;
+  !r
